@@ -198,7 +198,9 @@ func handleFmt(raw json.RawMessage) interface{} {
 		var want strings.Builder
 		numeric := false
 		k := 0
-		plain := []r.Element{value.NewString("丙"), value.NewBool(true), value.NewNull(), value.NewArray([]r.Element{value.NewNumber(1), value.NewString("s")})}
+		// (also texts that LOOK like numbers: a numeric directive takes numbers, not their spellings)
+		plain := []r.Element{value.NewString("丙"), value.NewBool(true), value.NewNull(), value.NewArray([]r.Element{value.NewNumber(1), value.NewString("s")}),
+			value.NewString("12"), value.NewString("-7.5"), value.NewString("1.5*10^8"), value.NewString("0"), value.NewString("+3E+2"), value.NewArray([]r.Element{value.NewNumber(2)})}
 		for _, sg := range c.Segs {
 			if sg.T == "lit" {
 				want.WriteString(litOf(sg.S))
